@@ -28,6 +28,11 @@ type C07Case struct {
 	// the caller's context of the request and of the follow-up: "" (context.Background()),
 	// deadline (CtxDeadlineS seconds away, 30..60), values, cancel (never cancelled during the
 	// call), values+deadline, cancel+deadline
+	// size class of the request and of the follow-up: "" (a few hundred bytes), 256k, 1m, 3m = an
+	// annotation value of that size on the container (on the pod for pod requests); the encoded
+	// request stays below ttRPC's 4 MiB limit
+	ReqSize      string `json:"req_size,omitempty"`
+	FollowSize   string `json:"follow_size,omitempty"`
 	Ctx          string `json:"ctx,omitempty"`
 	FollowCtx    string `json:"follow_ctx,omitempty"`
 	CtxDeadlineS int    `json:"ctx_deadline_s,omitempty"`
@@ -40,11 +45,16 @@ type PluginSpec struct {
 	Idx   int   `json:"idx"` // 0..99, rendered as two digits; distinct within a case
 	Big   bool  `json:"big,omitempty"`
 	Fault Fault `json:"fault"`
+	// Launched: a pre-installed plugin, started by the runtime from its plugin path (its own
+	// process, cmd/c07plugin) instead of an in-process stub connecting to the socket. Faults of
+	// a launched plugin: none, hang, exit (the process exits inside the handler, status K),
+	// close (during), error.
+	Launched bool `json:"launched,omitempty"`
 }
 
 // Fault is what goes wrong with a plugin during the main request. Kind:
 //
-//	none | cut | close | hang | error | wrongtype | undecodable | garbage | dying
+//	none | cut | close | hang | error | wrongtype | undecodable | garbage | dying | exit
 type Fault struct {
 	Kind string `json:"kind"`
 
@@ -52,6 +62,10 @@ type Fault struct {
 	// cut: bytes let through after the request starts flowing. dying: the plugin had sent the
 	// first K bytes (1..71) of a 72-byte frame of its own when it died on the request's arrival
 	K int `json:"k,omitempty"`
+	// cut, dir r2p: the peer stops reading at the cut point and closes only StallMs later
+	// (0 = closes at once). -1 = never closes: the runtime has to give up on it after the
+	// request timeout, whether its write of the request went through (small request) or not.
+	StallMs int `json:"stall_ms,omitempty"`
 
 	When    string `json:"when,omitempty"`     // close: before | during | after
 	DelayUs int    `json:"delay_us,omitempty"` // close before: pause between the close and the request
@@ -117,7 +131,7 @@ func cutK(t *rapid.T) int {
 	return rapid.IntRange(601, 9000).Draw(t, "k")
 }
 
-func faultGen(t *rapid.T, idx int, slowLeft *int) Fault {
+func faultGen(t *rapid.T, idx int, slowLeft *int, big bool) Fault {
 	kinds := []string{"cut", "close", "error", "dying", "cut", "undecodable", "hang", "wrongtype", "cut", "garbage", "close", "error",
 		"cut", "undecodable", "dying", "wrongtype", "close", "cut", "hang", "garbage"}
 	k := rapid.SampledFrom(kinds).Draw(t, "kind")
@@ -136,8 +150,27 @@ func faultGen(t *rapid.T, idx int, slowLeft *int) Fault {
 	f := Fault{Kind: k}
 	switch k {
 	case "cut":
-		f.Dir = rapid.SampledFrom([]string{"p2r", "p2r", "r2p"}).Draw(t, "dir")
+		dirs := []string{"p2r", "p2r", "r2p"}
+		if big {
+			dirs = []string{"r2p", "p2r", "r2p"}
+		}
+		f.Dir = rapid.SampledFrom(dirs).Draw(t, "dir")
 		f.K = cutK(t)
+		if f.Dir == "r2p" {
+			if big && rapid.IntRange(0, 2).Draw(t, "deep") > 0 {
+				// somewhere inside a large request: before and behind what a socket buffer holds
+				f.K = rapid.OneOf(rapid.IntRange(18, 300_000), rapid.IntRange(300_000, 3_400_000)).Draw(t, "k-deep")
+			}
+			f.StallMs = rapid.SampledFrom([]int{0, 20, -1, 1, 100, 0, -1, 5, 250}).Draw(t, "stall")
+			if f.StallMs < 0 {
+				// stops reading for good: costs one request timeout, like a hanging handler
+				if *slowLeft == 0 {
+					f.StallMs = 20
+				} else {
+					*slowLeft--
+				}
+			}
+		}
 	case "dying":
 		f.K = rapid.IntRange(1, 71).Draw(t, "k")
 	case "close":
@@ -199,6 +232,34 @@ func faultGen(t *rapid.T, idx int, slowLeft *int) Fault {
 	return f
 }
 
+// launchedFaultGen draws what goes wrong with a pre-installed plugin: only what a process of
+// its own can do by itself (nothing sits between it and the runtime).
+func launchedFaultGen(t *rapid.T, idx int, slowLeft *int) Fault {
+	k := rapid.SampledFrom([]string{"exit", "hang", "close", "exit", "error", "hang", "close"}).Draw(t, "lkind")
+	if k == "hang" {
+		if *slowLeft == 0 {
+			k = "exit"
+		} else {
+			*slowLeft--
+		}
+	}
+	f := Fault{Kind: k}
+	switch k {
+	case "exit":
+		f.K = rapid.SampledFrom([]int{0, 1, 3}).Draw(t, "status")
+	case "close":
+		f.When = "during"
+	case "error":
+		f.ErrText = fmt.Sprintf("c07 veto by plugin %02d", idx)
+		f.ErrForm = rapid.SampledFrom([]string{"plain", "status"}).Draw(t, "err-form")
+		if f.ErrForm == "status" {
+			f.ErrCode = rapid.SampledFrom([]int{8, 4, 14, 2}).Draw(t, "err-code")
+		}
+		f.Again = rapid.Bool().Draw(t, "err-again")
+	}
+	return f
+}
+
 func genC07(t *rapid.T) C07Case {
 	var c C07Case
 	c.Req, c.Event = reqGen(t, "req")
@@ -207,6 +268,9 @@ func genC07(t *rapid.T) C07Case {
 	c.Ctx = rapid.SampledFrom(ctxKinds).Draw(t, "ctx")
 	c.FollowCtx = rapid.SampledFrom(ctxKinds).Draw(t, "follow-ctx")
 	c.CtxDeadlineS = rapid.IntRange(30, 60).Draw(t, "ctx-deadline")
+	sizes := []string{"", "1m", "", "256k", "", "3m", "", ""}
+	c.ReqSize = rapid.SampledFrom(sizes).Draw(t, "req-size")
+	c.FollowSize = rapid.SampledFrom([]string{"", "", "", "1m", "", "", "256k", "3m"}).Draw(t, "follow-size")
 	n := rapid.SampledFrom([]int{2, 3, 3, 4, 4, 5}).Draw(t, "plugins")
 	idx := rapid.SliceOfNDistinct(rapid.IntRange(0, 99), n, n, rapid.ID[int]).Draw(t, "indices")
 	nf := rapid.SampledFrom([]int{1, 1, 2, 1, 1, 2, 1, 2, 3, 1, 2, 0}).Draw(t, "nfaults")
@@ -226,11 +290,18 @@ func genC07(t *rapid.T) C07Case {
 		faultyIdx[sorted[r]] = true
 	}
 	slow := 2
+	// a modest share of the cases has pre-installed plugins: all of them, or a drawn subset
+	launchMode := rapid.SampledFrom([]string{"", "", "all", "", "", "mixed", "", "", "", ""}).Draw(t, "launched")
 	for _, i := range idx {
 		ps := PluginSpec{Idx: i, Fault: Fault{Kind: "none"}}
 		ps.Big = rapid.IntRange(0, 7).Draw(t, "big") == 0
+		ps.Launched = launchMode == "all" || (launchMode == "mixed" && rapid.Bool().Draw(t, "launch"))
 		if faultyIdx[i] {
-			ps.Fault = faultGen(t, i, &slow)
+			if ps.Launched {
+				ps.Fault = launchedFaultGen(t, i, &slow)
+			} else {
+				ps.Fault = faultGen(t, i, &slow, c.ReqSize != "")
+			}
 		}
 		c.Plugins = append(c.Plugins, ps)
 	}
